@@ -167,9 +167,16 @@ class PlaceEngine(object):
                     dead.add((x, y))
                     w.probe("dead_chip")
                 elif k == 1:
-                    exc[(x, y)] = {par.Cores: t.draw(cores + 1),
-                                   par.SDRAM: t.draw(sdram + 1),
-                                   par.SRAM: 1024}
+                    items = [(par.Cores, t.draw(cores + 1)),
+                             (par.SDRAM, t.draw(sdram + 1)),
+                             (par.SRAM, 1024)]
+                    # (a chip's own dict need not list the resources in the
+                    # order of the machine's)
+                    r = t.draw_small(3, 0.7)
+                    items = items[r:] + items[:r]
+                    if t.draw(4) == 0:
+                        items.reverse()
+                    exc[(x, y)] = dict(items)
         if len(dead) == W * H:
             dead.pop()
         dead_links = set()
